@@ -186,6 +186,21 @@ var Operators = []Operator{
 			r.m.ExtensionRange = append(r.m.ExtensionRange, &descriptorpb.DescriptorProto_ExtensionRange{Start: proto.Int32(er.GetStart()), End: proto.Int32(er.GetStart() + 1)})
 			return true
 		}},
+	{Name: "extension-range-overlaps-reserved-range", Anchor: "basic_validation: message Foo: extension range 10 to 12 overlaps reserved range 1 to 10", Expect: `overlaps reserved range`,
+		Edit: func(rng *vlib.RNG, fs []*descriptorpb.FileDescriptorProto) bool {
+			r, ok := pickMsg(rng, fs, func(r msgRef) bool { return syntaxOf(r.f) != "proto3" })
+			return ok && overlapAmongDecoys(rng, r.m, 'r', 'e')
+		}},
+	{Name: "reserved-ranges-overlap-among-many", Anchor: "basic_validation: message Foo: reserved ranges overlap", Expect: `reserved ranges overlap`,
+		Edit: func(rng *vlib.RNG, fs []*descriptorpb.FileDescriptorProto) bool {
+			r, ok := pickMsg(rng, fs, func(r msgRef) bool { return true })
+			return ok && overlapAmongDecoys(rng, r.m, 'r', 'r')
+		}},
+	{Name: "extension-ranges-overlap-among-many", Anchor: "basic_validation: message Foo: extension ranges overlap", Expect: `extension ranges overlap`,
+		Edit: func(rng *vlib.RNG, fs []*descriptorpb.FileDescriptorProto) bool {
+			r, ok := pickMsg(rng, fs, func(r msgRef) bool { return syntaxOf(r.f) != "proto3" })
+			return ok && overlapAmongDecoys(rng, r.m, 'e', 'e')
+		}},
 	{Name: "tag-19000", Anchor: "basic_validation: tag number # is in disallowed reserved range", Expect: `is in disallowed reserved range`,
 		Edit: func(rng *vlib.RNG, fs []*descriptorpb.FileDescriptorProto) bool {
 			r, ok := pickMsg(rng, fs, func(r msgRef) bool { return len(r.m.Field) >= 1 })
@@ -732,4 +747,92 @@ func freeTag(m *descriptorpb.DescriptorProto) int32 {
 		}
 	}
 	return 0
+}
+
+// overlapAmongDecoys adds, in a free region of the message's number space, up to four disjoint
+// reserved/extension ranges ("decoys") and one pair of ranges of kinds a and b ('r' reserved, 'e'
+// extension) that overlap in at least one number. The position of the pair among the decoys, which of
+// the two starts lower, how far they overlap and the declaration order are all random, so the
+// overlapping pair is generally neither the first nor the last in sorted order.
+func overlapAmongDecoys(rng *vlib.RNG, m *descriptorpb.DescriptorProto, a, b byte) bool {
+	used := func(lo, hi int32) bool { // [lo, hi] touches something declared
+		for _, f := range m.Field {
+			if f.GetNumber() >= lo && f.GetNumber() <= hi {
+				return true
+			}
+		}
+		for _, x := range m.ReservedRange {
+			if x.GetStart() <= hi && x.GetEnd()-1 >= lo {
+				return true
+			}
+		}
+		for _, x := range m.ExtensionRange {
+			if x.GetStart() <= hi && x.GetEnd()-1 >= lo {
+				return true
+			}
+		}
+		return false
+	}
+	var base int32
+	found := false
+	for try := 0; try < 50 && !found; try++ {
+		base = int32(rng.Range(20000, 2000000))
+		found = !used(base, base+1000)
+	}
+	if !found {
+		return false
+	}
+	type rg struct {
+		kind   byte
+		lo, hi int32 // inclusive
+	}
+	var all []rg
+	slots := rng.Range(1, 5)
+	pairAt := rng.Intn(slots)
+	for i := 0; i < slots; i++ {
+		lo := base + int32(i)*150
+		if i != pairAt {
+			k := byte('r')
+			if rng.Bool() && (a == 'e' || b == 'e') {
+				k = 'e'
+			}
+			all = append(all, rg{k, lo, lo + int32(rng.Range(0, 40))})
+			continue
+		}
+		first, second := a, b
+		if rng.Bool() {
+			first, second = b, a
+		}
+		w := int32(rng.Range(0, 30))
+		x := rg{first, lo, lo + w}
+		var y rg
+		switch rng.Intn(4) {
+		case 0: // touches the last number only
+			y = rg{second, lo + w, lo + w + int32(rng.Range(0, 30))}
+		case 1: // contained
+			s0 := lo + int32(rng.Intn(int(w)+1))
+			y = rg{second, s0, s0 + int32(rng.Intn(int(lo+w-s0)+1))}
+		case 2: // identical
+			y = rg{second, lo, lo + w}
+		default: // partial
+			s0 := lo + int32(rng.Intn(int(w)+1))
+			y = rg{second, s0, lo + w + int32(rng.Range(1, 30))}
+		}
+		all = append(all, x, y)
+	}
+	vlib.Shuffle(rng, all)
+	for _, x := range all {
+		if x.kind == 'r' {
+			m.ReservedRange = append(m.ReservedRange, &descriptorpb.DescriptorProto_ReservedRange{Start: proto.Int32(x.lo), End: proto.Int32(x.hi + 1)})
+		} else {
+			m.ExtensionRange = append(m.ExtensionRange, &descriptorpb.DescriptorProto_ExtensionRange{Start: proto.Int32(x.lo), End: proto.Int32(x.hi + 1)})
+		}
+	}
+	if rng.Bool() {
+		// existing ranges declared after the new ones
+		if n := len(m.ReservedRange); n > 1 {
+			m.ReservedRange[0], m.ReservedRange[n-1] = m.ReservedRange[n-1], m.ReservedRange[0]
+		}
+	}
+	return true
 }
